@@ -149,12 +149,65 @@ func (e *c12Env) probe(where string) {
 	}
 }
 
+// c12Coherent draws a request whose method, route, query and body belong
+// together (so that it gets past the cheap rejections into the handler body),
+// with boundary values in the parameters.
+func c12Coherent(t *rapid.T, w *world1) (method, route, q string, body []byte) {
+	off := int64(w.s.M.Offset)
+	switch rapid.IntRange(0, 9).Draw(t, "coherent") {
+	case 0, 1:
+		weeks := []int64{0, 2016, off - 2016, off, off + 2016, off + 4032, off + 6048, 4294965280}
+		v := weeks[rapid.IntRange(0, len(weeks)-1).Draw(t, "week")]
+		if v < 0 {
+			v = 0
+		}
+		return "GET", "/api/v1/all-device-stats", fmt.Sprintf("?timeslot_offset=%d%s", v, rapid.SampledFrom([]string{"", "&insert_false_negatives=true"}).Draw(t, "fn")), nil
+	case 2:
+		k := w.devKey[w.devs[0]].Pub
+		if rapid.Bool().Draw(t, "bannedKey") {
+			k = w.bannedK.Pub
+		}
+		return "GET", "/api/v1/recent-reports", "?publicKey=" + hex.EncodeToString(k[:]), nil
+	case 3:
+		return "GET", rapid.SampledFrom([]string{"/api/v1/equipment", "/api/v1/authorized-servers", "/api/v1/archive"}).Draw(t, "plainGet"), "", nil
+	case 4:
+		return "GET", "/api/v1/geo-stats", "?latitude=45.5&longitude=-122.5", nil
+	case 5, 6:
+		for {
+			if b := c12Body(t, w); len(b) > 0 && bytes.Contains(b, []byte("Capacity")) {
+				return "POST", "/api/v1/authorize-equipment", "", b
+			}
+		}
+	case 7:
+		for {
+			if b := c12Body(t, w); len(b) > 0 && bytes.Contains(b, []byte("GCAAuthorization")) {
+				return "POST", "/api/v1/authorized-servers", "", b
+			}
+		}
+	case 8:
+		for {
+			if b := c12Body(t, w); len(b) > 0 && bytes.Contains(b, []byte("NewGCA")) {
+				return "POST", "/api/v1/equipment-migrate", "", b
+			}
+		}
+	default:
+		for {
+			if b := c12Body(t, w); len(b) > 0 && bytes.Contains(b, []byte("GCAKey")) {
+				return "POST", "/api/v1/register-gca", "", b
+			}
+		}
+	}
+}
+
 func (e *c12Env) httpInput(t *rapid.T) {
 	w := e.w
 	method := rapid.SampledFrom([]string{"GET", "GET", "POST", "POST", "PUT", "DELETE", "HEAD", "PATCH", "OPTIONS", "FOO"}).Draw(t, "method")
 	route := rapid.SampledFrom(c12Routes).Draw(t, "route")
 	q := c12Query(t, w)
 	body := c12Body(t, w)
+	if rapid.Bool().Draw(t, "coherentRequest") {
+		method, route, q, body = c12Coherent(t, w)
+	}
 	desc := fmt.Sprintf("%s %s%s body=%dB", method, route, q, len(body))
 	e.hist = append(e.hist, desc)
 	req, err := http.NewRequest(method, fmt.Sprintf("http://127.0.0.1:%d%s%s", e.s.S.HTTP, route, q), bytes.NewReader(body))
